@@ -46,6 +46,14 @@ manifest = {
     "engines": [
         {"name": "harness", "path": "harness/", "serves_properties": [c["property_id"] for c in checks],
          "kind_free_text": "runner (tiers, seeds, 16-way sharding, collect-then-shrink, known findings, replay), codec, value strategies, reference models"},
+        {"name": "world", "path": "harness/world.py", "serves_properties": [c["property_id"] for c in checks if c["engine"] == "world"],
+         "kind_free_text": "operation-history (program) strategy + interpreter over a pool of live vectors/tables; hooks per check"},
+        {"name": "relational", "path": "harness/relational.py", "serves_properties": [c["property_id"] for c in checks if c["engine"] == "relational"],
+         "kind_free_text": "join / group-by / sort case generators, table realisation, PYTHONHASHSEED child driver"},
+        {"name": "elementwise", "path": "checks/c05.py", "serves_properties": [c["property_id"] for c in checks if c["engine"] == "elementwise"],
+         "kind_free_text": "operand-pair generators and per-element Python reference shared by C05-C08"},
+        {"name": "fuzz", "path": "fuzz/", "serves_properties": ["C17", "C19", "C20"],
+         "kind_free_text": "atheris (libFuzzer) targets with the semantic oracle inside, driven by harness/fuzzdrive.py in the thorough tier"},
     ],
     "checks": checks,
     "not_applicable": na,
